@@ -659,10 +659,11 @@ func (e *exprEnv) call(n *ast.CallExpr) (cval, error) {
 				return cval{}, err
 			}
 			rng := fmt.Sprintf("(and (<= %s %s) (< %s %s))", lo.term, q(qv), q(qv), hi.term)
+			pats := selectPatterns(body.term, q(qv))
 			if name == "forall" {
-				return cval{term: fmt.Sprintf("(forall ((%s Int)) (=> %s %s))", q(qv), rng, body.term), typ: boolT}, nil
+				return cval{term: fmt.Sprintf("(forall ((%s Int)) %s)", q(qv), withPatterns(fmt.Sprintf("(=> %s %s)", rng, body.term), pats)), typ: boolT}, nil
 			}
-			return cval{term: fmt.Sprintf("(exists ((%s Int)) (and %s %s))", q(qv), rng, body.term), typ: boolT}, nil
+			return cval{term: fmt.Sprintf("(exists ((%s Int)) %s)", q(qv), withPatterns(fmt.Sprintf("(and %s %s)", rng, body.term), pats)), typ: boolT}, nil
 		case "allref", "exref", "allint", "exint", "allstr", "exstr":
 			bv, ok := n.Args[0].(*ast.Ident)
 			if !ok {
@@ -695,10 +696,11 @@ func (e *exprEnv) call(n *ast.CallExpr) (cval, error) {
 			if err != nil {
 				return cval{}, err
 			}
+			pats := selectPatterns(body.term, q(qv))
 			if strings.HasPrefix(name, "all") {
-				return cval{term: fmt.Sprintf("(forall ((%s %s)) %s)", q(qv), sortQ, body.term), typ: boolT}, nil
+				return cval{term: fmt.Sprintf("(forall ((%s %s)) %s)", q(qv), sortQ, withPatterns(body.term, pats)), typ: boolT}, nil
 			}
-			return cval{term: fmt.Sprintf("(exists ((%s %s)) %s)", q(qv), sortQ, body.term), typ: boolT}, nil
+			return cval{term: fmt.Sprintf("(exists ((%s %s)) %s)", q(qv), sortQ, withPatterns(body.term, pats)), typ: boolT}, nil
 		case "ntrace":
 			return cval{term: e.st.ntrace, typ: intT}, nil
 		case "emitted":
@@ -725,6 +727,15 @@ func (e *exprEnv) call(n *ast.CallExpr) (cval, error) {
 				return cval{}, err
 			}
 			var cs []string
+			// further arguments: objects that are exempt (may have changed)
+			var except []string
+			for _, a := range n.Args[1:] {
+				xv, err := e.expr(a)
+				if err != nil {
+					return cval{}, err
+				}
+				except = append(except, xv.term)
+			}
 			for _, g := range tg {
 				cur, old := t.get(e.st, g.arr, g.sort), t.get(e.old, g.arr, g.sort)
 				if cur == old {
@@ -735,7 +746,11 @@ func (e *exprEnv) call(n *ast.CallExpr) (cval, error) {
 					continue
 				}
 				qv := q(B.fresh("?p"))
-				cs = append(cs, fmt.Sprintf("(forall ((%s Int)) (! (=> (and (<= 0 %s) (<= %s %s)) (= (select %s %s) (select %s %s))) :pattern ((select %s %s))))", qv, qv, qv, e.old.alloc, cur, qv, old, qv, cur, qv))
+				hyp := fmt.Sprintf("(and (<= 0 %s) (<= %s %s))", qv, qv, e.old.alloc)
+				for _, x := range except {
+					hyp = and(hyp, fmt.Sprintf("(not (= %s %s))", qv, x))
+				}
+				cs = append(cs, fmt.Sprintf("(forall ((%s Int)) (! (=> %s (= (select %s %s) (select %s %s))) :pattern ((select %s %s))))", qv, hyp, cur, qv, old, qv, cur, qv))
 			}
 			return cval{term: and(cs...), typ: boolT}, nil
 		case "allocated":
@@ -846,6 +861,40 @@ func (e *exprEnv) call(n *ast.CallExpr) (cval, error) {
 				return cval{}, fmt.Errorf("event %s has %d arguments", id.Name, len(sorts))
 			}
 			return cval{term: fmt.Sprintf("(%s %s)", fmt.Sprintf("ev_%s_%d", id.Name, ai), v.term), typ: sortType(sorts[ai]), sort: sorts[ai]}, nil
+		case "closureof", "bindof":
+			// closureof(v, "FuncName$1") : v is a closure of that function literal; bindof(v, "FuncName$1", i): its i-th captured variable
+			v, err := e.expr(n.Args[0])
+			if err != nil {
+				return cval{}, err
+			}
+			bl, ok := n.Args[1].(*ast.BasicLit)
+			if !ok || bl.Kind != token.STRING {
+				return cval{}, fmt.Errorf("%s(v, \"Func$n\"...)", name)
+			}
+			fnName, _ := strconv.Unquote(bl.Value)
+			fnName = strings.ReplaceAll(fnName, "ζ", "$")
+			key := fnName
+			if e.pkg != nil {
+				key = qualifyKey(fnName, pkgQualifier(e.pkg.Path()))
+			}
+			lit := t.P.Funcs[key]
+			if lit == nil {
+				return cval{}, fmt.Errorf("no function literal %s", key)
+			}
+			if name == "closureof" {
+				cf := B.declFun("closure_fn", []string{"Int"}, "Int")
+				return cval{term: fmt.Sprintf("(= (%s %s) %s)", cf, v.term, t.closureID(lit)), typ: boolT}, nil
+			}
+			il, ok := n.Args[2].(*ast.BasicLit)
+			if !ok {
+				return cval{}, fmt.Errorf("bindof index must be a literal")
+			}
+			bi, _ := strconv.Atoi(il.Value)
+			if bi >= len(lit.FreeVars) {
+				return cval{}, fmt.Errorf("%s captures %d variables", key, len(lit.FreeVars))
+			}
+			bf := B.declFun(fmt.Sprintf("closure_bind:%s:%d", key, bi), []string{"Int"}, "Int")
+			return cval{term: fmt.Sprintf("(%s %s)", bf, v.term), typ: lit.FreeVars[bi].Type()}, nil
 		case "isev":
 			v, err := e.expr(n.Args[0])
 			if err != nil {
@@ -1356,4 +1405,50 @@ func (f *frame) callResType(name string, ord, ridx int) types.Type {
 		}
 	}
 	return nil
+}
+
+
+// selectPatterns finds array reads indexed exactly by the bound variable: (select A qv) with A free of bound variables.
+// They make good E-matching triggers (instantiate only for indices that are actually read).
+func selectPatterns(body, qv string) []string {
+	var out []string
+	seen := map[string]bool{}
+	from := 0
+	for {
+		i := strings.Index(body[from:], "(select ")
+		if i < 0 {
+			break
+		}
+		start := from + i
+		args, end, ok := parseArgs(body, start+len("(select "), 2)
+		from = start + 1
+		if !ok {
+			continue
+		}
+		if args[1] != qv || strings.Contains(args[0], "?") {
+			continue
+		}
+		t := body[start : end+1]
+		if !seen[t] {
+			seen[t] = true
+			out = append(out, t)
+		}
+	}
+	return out
+}
+
+func withPatterns(body string, pats []string) string {
+	if len(pats) == 0 {
+		return body
+	}
+	var sb strings.Builder
+	sb.WriteString("(! ")
+	sb.WriteString(body)
+	for _, p := range pats {
+		sb.WriteString(" :pattern (")
+		sb.WriteString(p)
+		sb.WriteString(")")
+	}
+	sb.WriteString(")")
+	return sb.String()
 }
